@@ -67,10 +67,16 @@ class C14(ProgramProperty):
             "non-ASCII character, or the converter mixes records with and without synonyms. Half of the extended-prefix-map cases "
             "(30 % of the others) build the converter from a plain prefix map followed by merges; 20 % of the records have synonyms "
             "equal up to case; every JSON file written is parsed by the modelled json.loads and compared with CPython's result; 10 % "
-            "of the cases exercise the JSON text layer alone (harness/jsonlayer.py).")
+            "of the cases exercise the JSON text layer alone (harness/jsonlayer.py), and every text of length <= 5 (thorough: 6) over "
+            "the 13 structural characters of JSON is parsed by the model and by CPython on every run.")
 
     def budget(self, tier):
         return 500 if tier == "quick" else 12000
+
+    def exhaustive(self, tier):
+        from .. import jsonlayer
+
+        return jsonlayer.exhaustive(tier)
 
     def gen(self, rng, tier):
         if rng.random() < 0.1:
